@@ -143,6 +143,16 @@ type Op struct {
 	Status     int      `json:"status"` // declared success status
 	Auth       Auth     `json:"auth"`
 	Calls      []Call   `json:"calls"`
+	// AlsoConsumes: a second media type the operation lists after the one its payload is sent in ("" = none): the
+	// description's first entry is what the client sends. (r7)
+	AlsoConsumes string `json:"also_consumes,omitempty"`
+}
+
+func (o Op) consumesList() []string {
+	if o.AlsoConsumes != "" && o.AlsoConsumes != o.consumes() {
+		return []string{o.consumes(), o.AlsoConsumes}
+	}
+	return []string{o.consumes()}
 }
 
 // Case is one API description with its operations and the calls made to each.
@@ -231,7 +241,7 @@ func (c Case) spec() m {
 		}
 		op := m{
 			"operationId": fmt.Sprintf("op%d", i),
-			"consumes":    []string{o.consumes()},
+			"consumes":    o.consumesList(),
 			"produces":    []string{o.Produces},
 			"responses": m{
 				strconv.Itoa(o.Status): m{"description": "success"},
@@ -592,7 +602,7 @@ func submit(rt *client.Runtime, w *wire, oi int, op Op, call *Call, o *obs, wher
 		Method:             op.Method,
 		PathPattern:        op.Tmpl,
 		ProducesMediaTypes: []string{op.Produces},
-		ConsumesMediaTypes: []string{op.consumes()},
+		ConsumesMediaTypes: op.consumesList(),
 		Schemes:            []string{"http"},
 		AuthInfo:           authWriter(op.Auth, o),
 	}
